@@ -140,6 +140,15 @@ PROPS = {
         "trusted_base": ["the signature scheme is a parameter: a token verifies under exactly the key that signed it (toy MAC behind the JwsVerifier hook; EdDSA/ES256 verifiers are third-party and C01's concern)", "JWS decoding is C08/C11's model; tokens here are well-formed compact JWS", "method resolution is the C04 model, the claims conversion the C07 model, the status decision the C06 model, timestamps the C13 model (each regenerated and checked by its own property)", "what the conversion copies verbatim is represented by the facts validation looks at (base context first, base type present, subject properties empty, nonTransferable, status entry)"],
         "assumptions": ["JwtCredentialValidator::validate takes one issuer document; the several-issuers behaviour is observed through verify_signature (validate_decoded_credential is crate-private)"],
     },
+    "C03": {
+        "translate": True,
+        "gens": ["C04", "C13", "C07"],
+        "diff_is_violation": True,
+        "trivial": ["bad-request"],
+        "rule": "streams (toy signature scheme behind the JwsVerifier hook; holder documents from the C04 document specs with toy JWKs, incl. keys of another DID listed as general, embedded and referenced methods, sharing the fragment of the holder's own key): (1) corpus; (2) EVERY combination of eleven conditions broken (nonce, kid absent / empty / DID without fragment / unknown fragment, method without JWK, signature under another key, iss not a DID, iss another DID, expiry before the bound, issuance after the bound, vp.id != jti, vp.holder != iss, exp beyond year 9999), 2048 requests; (3) 7 placements of the signing method x 5 configured scopes x 8 kid forms (full id, #fragment, bare fragment, foreign full id, id with path, DID only, empty, absent) x 2 signing keys x method-id override; (4) nonce absent / equal / different on either side; (5) exp x nbf x iat over {absent, bound -1, bound, bound +1, beyond the representable range} under two option sets; (6) a payload that is not a claims set; (7) 1500 (20000) random mixtures. Every reply (presentation id and holder, expiry, issuance, audience, custom claims, or the error kind) must equal the model's. Non-trivial = not bad-request; distinct request lines.",
+        "trusted_base": ["the signature scheme is a parameter (as in C02)", "JWS decoding is C08/C11's model; tokens are well-formed compact JWS", "method resolution is the C04 model (query = DID part + fragment of the kid string; the string-level extraction of DIDUrlQuery is exercised through the kid forms, not modelled)", "claims conversion and dates are the C07 / C13 models"],
+        "assumptions": ["a method of another DID embedded in the holder document is a verification method of that document (the statement's wording); the binding to the holder is the iss = document id condition"],
+    },
     "C18": {
         "translate": True,
         "diff_is_violation": False,
